@@ -956,7 +956,7 @@ int run_check(const CheckArgs &a)
 			IsoResult r = eval_isolated(P, c.plan, 600);
 			if (r.viol.empty()) {
 				// the worker died but the plan does not reproduce in isolation: checker fault
-				fprintf(stderr, "GATE: worker death at idx %lu did not reproduce in isolation\n", (unsigned long)c.idx);
+				dprintf(g_out_fd, "checker fault: a worker died at run index %lu but the plan does not reproduce a violation in isolation\n", (unsigned long)c.idx);
 				gate_failures++;
 				continue;
 			}
@@ -979,7 +979,7 @@ int run_check(const CheckArgs &a)
 		// gate (2): fresh process
 		IsoResult g3 = eval_fresh_process(c.plan, tmpdir);
 		if (!g1.has(c.cls) || !g2.has(c.cls) || !g3.has(c.cls) || g1.hash != g2.hash) {
-			fprintf(stderr, "GATE: class %s (idx %lu) failed the reproduction gate (iso %d/%d fresh %d, hash %s)\n", c.cls.c_str(),
+			dprintf(g_out_fd, "checker fault: class %s (run index %lu) failed the reproduction gate (isolated %d/%d, fresh process %d, hash %s)\n", c.cls.c_str(),
 				(unsigned long)c.idx, g1.has(c.cls), g2.has(c.cls), g3.has(c.cls), g1.hash == g2.hash ? "same" : "differs");
 			gate_failures++;
 			continue;
@@ -1033,16 +1033,16 @@ int run_check(const CheckArgs &a)
 		if (k.status != "fixed" && k.property == P.id && !known_hits.count(k.what))
 			dprintf(g_out_fd, "KNOWN-FINDING: property=%s %s [listed in known_findings.json; not reached by this run]\n", P.id.c_str(), k.what.c_str());
 	if (nondet) {
-		fprintf(stderr, "DETERMINISM: %lu re-checked runs produced a different event-log hash\n", (unsigned long)nondet);
+		dprintf(g_out_fd, "checker fault: %lu re-checked runs produced a different event-log hash (nondeterminism)\n", (unsigned long)nondet);
 		gate_failures += nondet;
 	}
 	uint64_t discarded = total.count("discarded") ? total["discarded"] : 0;
 	if (runs && discarded * 2 > runs) {
-		fprintf(stderr, "more than half of the plans were discarded (%lu of %lu): explored too little\n", (unsigned long)discarded, (unsigned long)runs);
+		dprintf(g_out_fd, "checker fault: more than half of the plans were discarded (%lu of %lu): explored too little\n", (unsigned long)discarded, (unsigned long)runs);
 		gate_failures++;
 	}
 	if (runs == 0) {
-		fprintf(stderr, "no run completed\n");
+		dprintf(g_out_fd, "checker fault: no run completed\n");
 		gate_failures++;
 	}
 	if (gate_failures && exit_code == 0)
